@@ -29,7 +29,8 @@ RULE = ("call histories (one process per shard, 75-300 calls each) mixing anneal
         "Python-side precondition contract on every c_anneal_* call, the H2 in-kernel index assertions, and a fixed "
         "reference call repeated at the end of every history. Non-trivial = call that reached the C kernel with >= 2 "
         "spins and >= 1 sweep; distinct = digest of (function, type, terms, kwargs)")
-TIERS = {"quick": {"shards": 8, "cases": 110, "timeout": 1500, "fuzz_jobs": 4, "fuzz_runs": 150000},
+TIERS = {"quick": {"shards": 8, "cases": 110, "timeout": 1500, "fuzz_jobs": 4, "fuzz_runs": 150000,
+                   "valgrind_shards": 3, "valgrind_cases": 25},
          "thorough": {"shards": 16, "cases": 5000, "timeout": 6 * 3600, "valgrind_shards": 8, "valgrind_cases": 40,
                       "fuzz_jobs": 16, "fuzz_runs": 3000000}}
 FLOOR_BASE = {"quick": 75, "thorough": 5000}    # case counts the floors below were calibrated for; the launcher scales them
@@ -477,8 +478,8 @@ def custom_run(env):
         cov.update(fz["cov"])
         extra_viol.extend(fz["violations"])
         extra_inc.extend(fz["inconclusive"])
-    # ---- valgrind memcheck subset on the plain build (thorough only) ---------------------------------------------
-    if tier == "thorough" and not env["replay"]:
+    # ---- valgrind memcheck subset on the plain build (small in quick, larger in thorough) ---------------------------------------------
+    if not env["replay"]:
         vg = run_valgrind(env, conf, seed, tmp)
         cov.update(vg["cov"])
         extra_viol.extend(vg["violations"])
